@@ -19,7 +19,7 @@ WRAP_MUTANTS = ["snakeIgnoresDigits", "noKeywordRule", "slotCollision", "unwrapC
 OWNERS = ["Patient", "HumanName", "String", "Contact"]
 XTYPES = ["Reference", "Identifier", "Coding", "Extension", "string", "dateTime"]
 MODEL_RES = ["MR1", "MR2", "MR3", "MR4", "C20_X1", "C20_X2", "C20_X3", "C20_X4", "C20_X5"]
-JUDGE_CHUNK = 40000
+JUDGE_CHUNK = 15000
 
 
 def random_behaviours(rng, n):
@@ -115,7 +115,7 @@ def run(ctx):
         raise D.Inconclusive("extension machine emitted only %d behaviours" % len(behaviours))
     for k, b in enumerate(behaviours):
         b["id"] = "beh/q%06d" % k
-        b["owners"] = [OWNERS[k % len(OWNERS)]] if quick else OWNERS
+        b["owners"] = [OWNERS[k % len(OWNERS)]] if quick else [OWNERS[k % len(OWNERS)], OWNERS[(k + 2) % len(OWNERS)]]
     for m in (EXT_MUTANTS[:3] if quick else EXT_MUTANTS):
         D.mutant_twin(ctx, "C20_ExtMC", "C20_ext_mut_%s.cfg" % m, m, workers=1)
     n_random = 0
